@@ -1,6 +1,6 @@
 (* Extract/E_C04.v — wire entry for C04 (glue, not trusted for theorems).
    case = [op; ver; invcode; cs; vf; map; payload...]   answer = [model; spec]
-     ver      0 = Fixed (repaired code), 1 = Orig (code as found)
+     ver      0 = Fixed (repaired code incl. fix-F-C02f), 1 = Orig (code as found), 2 = Fixed0 (C04 fixes only)
      invcode  0 -> -1, 1 -> INVALID_INDEX_32, 2 -> INVALID_INDEX_64 (2^62 does not fit the
               wire's 63-bit integers); a map entry -1000 on the wire stands for the marker
      op 1  ordered_map_valid_stream, numeric/bool source        payload [data]
@@ -18,7 +18,7 @@ Open Scope Z_scope.
 
 Definition inv_of_code (c:Z) : Z :=
   if c =? 1 then INVALID_INDEX_32 else if c =? 2 then INVALID_INDEX_64 else -1.
-Definition ver_of_code (c:Z) : version := if c =? 1 then Orig else Fixed.
+Definition ver_of_code (c:Z) : version := if c =? 1 then Orig else if c =? 2 then Fixed0 else Fixed.
 Definition subst_marker (inv:Z) (m:list Z) : list Z := map (fun k => if k =? -1000 then inv else k) m.
 
 Definition vpair2 (p:list Z * list Z) : val := VL [vlist (fst p); vlist (snd p)].
